@@ -229,6 +229,31 @@ pub fn nesting_case(r: &mut Rng) -> String {
     s
 }
 
+/// Deep call nesting (beyond 8-bit / initial-capacity thresholds of the mode stack) around a
+/// small speculative / string / error case.
+pub fn deep_call_case(r: &mut Rng) -> String {
+    let k = r.pick(&[6usize, 13, 41, 52, 60, 100, 300]);
+    let open = r.pick(&["%a(", "%a(x,", "%a(b=", "%eval((", "%str(("]);
+    let inner = match r.below(5) {
+        0 => speculation_case(r),
+        1 => literal_case(r),
+        2 => format!("\"{}\"", r.pick(&["%b ", "&x ", "%b(1) ", "a \"\"b", "%b /*c*/ "])),
+        3 => r.pick(&["%b ", "%b x", "x y", "%let a b;", "'q'", "%b /*c*/ y", ""]).to_string(),
+        _ => nesting_case(r),
+    };
+    let close = if open.ends_with("((") { "))" } else { ")" };
+    let closers = if r.chance(4, 5) { k } else { r.below(k + 1) };
+    format!("{}{}{};", open.repeat(k), inner, close.repeat(closers))
+}
+
+/// A source that raises very many diagnostics before a recoverable missing symbol.
+pub fn many_errors_case(r: &mut Rng) -> String {
+    let unit = r.pick(&["x = 'zz'x;\n", "%let a b;\n", "%eval 1);\n", "1e;", "0ff ", "%scan(a);\n"]);
+    let n = r.pick(&[33_000usize, 66_000, 70_000]);
+    let tail = r.pick(&["%let a b;", "%do i 1 %to 2; %end;", "%eval 1)", "%copy m x;", "%return x", "%m("]);
+    format!("{}{}", unit.repeat(n), tail)
+}
+
 /// Error-under-speculation family for C09 plus label / MacroSep neighbours.
 pub fn error_case(r: &mut Rng, corpus: &Corpus) -> String {
     match r.below(6) {
@@ -270,7 +295,8 @@ pub fn empty_token_case(r: &mut Rng) -> String {
 pub fn structural_targeted(prop: &str, r: &mut Rng, corpus: &Corpus, tier: Tier) -> String {
     let base = |r: &mut Rng| super::general(r, corpus, tier).0;
     match prop {
-        "C02" => match r.below(4) {
+        "C02" => match r.below(5) {
+            4 => deep_call_case(r),
             0 => speculation_case(r),
             1 => {
                 let b = base(r);
@@ -345,8 +371,12 @@ pub fn structural_targeted(prop: &str, r: &mut Rng, corpus: &Corpus, tier: Tier)
             2 => hex_case(r),
             _ => str_call_case(r),
         },
-        "C09" => error_case(r, corpus),
-        "C10" => match r.below(3) {
+        "C09" => match r.below(12) {
+            0 => deep_call_case(r),
+            _ => error_case(r, corpus),
+        },
+        "C10" => match r.below(4) {
+            3 => deep_call_case(r),
             0 => nesting_case(r),
             1 => {
                 let p = grammar::gen_program(r, tier.gcfg());
